@@ -305,6 +305,10 @@ pub struct ScenarioSpec {
     /// (log macros only evaluate their arguments when the level is enabled)
     #[serde(default)]
     pub log_level: u8,
+    /// configuration of the embedding application: the reader's `Opts.debug` dump option is set
+    /// (every event's payload is written under a scratch directory). Results must not depend on it.
+    #[serde(default)]
+    pub debug_dump: bool,
 }
 
 impl ScenarioSpec {
